@@ -22,6 +22,7 @@ typedef struct {
 	jwt_alg_t alg;
 	int openssl_only;
 	int thorough_only;
+	const char *foreign_x;  /* OKP only: the private JWK carries this other key's x next to its own d (the key is what d says) */
 	/* runtime */
 	vk_t *vk;
 	unsigned char oct[64];
@@ -38,7 +39,7 @@ static pair_t PAIRS[] = {
 	{ "rsapss2048", JWT_ALG_PS256, 0, 1 }, { "rsa3072", JWT_ALG_RS256, 0, 1 }, { "rsa2048e3", JWT_ALG_RS256, 0, 1 },
 	{ "p256a", JWT_ALG_ES256, 0, 0 }, { "p384", JWT_ALG_ES384, 0, 0 }, { "p521", JWT_ALG_ES512, 0, 0 }, { "k256", JWT_ALG_ES256K, 1, 0 },
 	{ "p256_x0", JWT_ALG_ES256, 0, 1 }, { "k256", JWT_ALG_ES256, 1, 1 },
-	{ "ed25519a", JWT_ALG_EDDSA, 0, 0 }, { "ed448", JWT_ALG_EDDSA, 0, 0 },
+	{ "ed25519a", JWT_ALG_EDDSA, 0, 0 }, { "ed448", JWT_ALG_EDDSA, 0, 0 }, { "ed25519a", JWT_ALG_EDDSA, 0, 0, "ed25519b" },
 	/* RSA moduli that are not a whole number of octets (keys/extra) */
 	{ "rsa2050", JWT_ALG_RS256, 0, 0 }, { "rsa2050", JWT_ALG_PS256, 0, 1 }, { "rsa3002", JWT_ALG_RS384, 0, 1 },
 };
@@ -97,6 +98,13 @@ static void setup_pairs(void)
 			const char *attr = p->vk->pss ? tok_alg_names[p->alg] : NULL;
 			pubj = vk_jwk_text(p->vk, 0, attr, NULL);
 			privj = vk_jwk_text(p->vk, 1, attr, NULL);
+			if (p->foreign_x) {
+				json_t *j = json_loads(privj, 0, NULL);
+				json_object_set(j, "x", json_object_get(vk_get(p->foreign_x)->pub_jwk, "x"));
+				free(privj);
+				privj = tok_jdump(j, JSON_COMPACT);
+				json_decref(j);
+			}
 		}
 		p->pub = jwks_create(pubj);
 		p->priv = jwks_create(privj);
